@@ -673,6 +673,11 @@ func (c *Ctx) sentinelTransparent(rule string) {
 						gf := StaticCallee(call)
 						asksStorage := cn == fnLoad || (gf != nil && inSet[gf] && gf != fn)
 						if asksStorage && Reaches(call.(ssa.Instruction), ret) {
+							// ... unless storage is known to have reported no error there (a
+							// storer answering (nil, nil)): no fault is being replaced
+							if e := ErrResult(call); e != nil && ErrNilAt(ret, e) {
+								continue
+							}
 							bad = "ErrUserNotFound returned after storage was asked (" + cn + ")"
 						}
 					}
